@@ -71,6 +71,19 @@ a duplicate of the first dependency is ignored -/
 def mkDeps (d0 d1 : Option Nat) : Option Nat × Option Nat :=
   (d0, if d1 = d0 then none else d1)
 
+/-- the two setters of `Task` (src/Task.hpp), in the order in which a call site calls them -/
+inductive SetOp where
+  | dep (d : Nat)      -- Task::set_dependency(d):        _dependency[0] = d
+  | extra (d : Nat)    -- Task::set_extra_dependency(d):  if (d != _dependency[0]) _dependency[1] = d
+deriving DecidableEq, Repr
+
+def applySet (t : Option Nat × Option Nat) : SetOp → Option Nat × Option Nat
+  | .dep d => (some d, t.2)
+  | .extra d => if some d = t.1 then t else (t.1, some d)
+
+/-- `_dependency[0..1]` of a freshly constructed `Task` after a sequence of setter calls -/
+def setupDeps (ops : List SetOp) : Option Nat × Option Nat := ops.foldl applySet (none, none)
+
 /-- the calls a thread can make -/
 inductive Cmd where
   | get                       -- ThreadSafeVector::get_free_element
